@@ -32,7 +32,31 @@ NOTES = {
            'second seed (class-level mutable detector state) is caught by the repeatability histories',
     'C17': 'missed at first (single text per file); caught after PositionsHist.tla (file versions x mtimes x unsaved '
            'buffers x queries through import/search) and its replay',
-    'C18': 'missed at first (no nested comprehensions)',
+    'C18': 'missed at first (no nested comprehensions); caught after Nesting.tla got nest trees of comprehensions / generator '
+           'expressions / lambdas (ParentStrict); that extension found two genuine defects (lambda in a class body: fixed; names in '
+           'comprehensions of def/class headers: known finding)',
+    # ---- round 2 (a second, different change per property)
+    'C02r2': 'missed at first (classmethods only called on the defining class); caught after Infer.tla / PyCore got a subclass S(K) '
+             'and an inherited classmethod (NewS, Make) and the feature snippets inherited classmethod / staticmethod / property',
+    'C03r2': 'missed at first (expression scopes were only rendered as expression statements); caught after lambdas and '
+             'comprehensions are also rendered as the right-hand side of an assignment statement',
+    'C07r2': 'missed at first: the touched-line estimate counted the comment / blank lines in front of an inlined definition as '
+             'part of it; for inline they are now untouched text',
+    'C08r2': 'caught by the what-if counterexample replay after the text family generator-tail (same def line and first '
+             'statement, changed yield) had been added while the trial was queued',
+    'C11r2': 'missed at first (the cursor was always behind the last argument); caught after the call variant "trailing" '
+             '(more arguments after the cursor)',
+    'C12r2': 'caught after NoExec.tla got the in-process environment (envkind) and the finder-phase sys.path swap '
+             '(FindRestoresAlways what-if), added while the trial was queued',
+    'C14r2': 'first trial ended in a machinery failure (exit 2, not a verdict): the churn scenario read the private `_used` flag '
+             'the change removes; the scenario no longer depends on it and reports states-not-released',
+    'C15r2': 'missed at first: the scaling families stopped at n=32 in the quick tier AND the harness itself raised the '
+             'interpreter recursion limit in its workers, which masked what jedi does at import; families now go to 64 (pair and '
+             'attr_chain added) and the limit is left to jedi',
+    'C16r2': 'caught by the direct observation of every setting / switch after every query (Switch.tla SwitchRestored) and by '
+             'the two-module dynamic-parameter source, both added while the trial was queued',
+    'C20r2': 'same aliasing as C09 (round 1); caught by the path clauses; the settings-unchanged-by-use clauses (p2 / rt2) '
+             'were added as well',
 }
 
 rows = []
@@ -58,7 +82,7 @@ with open('/verif/seeded/RESULTS.md', 'w') as f:
         f.write('| %s | %s | %s | %s | %s |\n' % (pid, summ[:300], 'yes' if conf else 'NO', ', '.join('check ' + c for c in by) or '**missed**',
                                                  '<br>'.join('`%s`' % k for k in keys[:4])))
     f.write('\n## What had to be strengthened\n\n')
-    for pid in sorted(NOTES):
+    for pid in sorted(NOTES, key=lambda x: (len(x) > 3, x)):
         f.write('* **%s** - %s\n' % (pid, NOTES[pid]))
     f.write('\nRejected seed: `_rejected/C16a` (breaks the pinned suite).\n')
 print(open('/verif/seeded/RESULTS.md').read()[:3000])
